@@ -130,12 +130,32 @@ func verifSimNext() uint64 {
 	return hi ^ lo
 }
 
+// cheaprandRaw is the original per-M generator. It is used by runtime-internal sites whose NUMBER
+// of draws depends on timing or on which M runs (rtpatch.py lists them), so that they never
+// touch the simulation stream.
+//
+//go:nosplit
+func cheaprandRaw() uint32 {
+	mp := getg().m
+	mp.cheaprand += 0xa0761d6478bd642f
+	hi, lo := math.Mul64(mp.cheaprand, mp.cheaprand^0xe7037ed1a0b428db)
+	return uint32(hi ^ lo)
+}
+
+//go:nosplit
+func cheaprandnRaw(n uint32) uint32 {
+	return uint32((uint64(cheaprandRaw()) * uint64(n)) >> 32)
+}
+
 //go:linkname verifSimReseed
 func verifSimReseed(s uint64) {
 	verifSimState = s
 	verifSchedN = 0
 	verifSimDraws = 0
+	verifSimTick = 1
 }
+
+var verifSimTick uint32 = 1
 
 //go:linkname verifSimOn
 func verifSimOn() bool { return verifSimDeterministic }
@@ -153,7 +173,9 @@ var (
 )
 
 // verifSchedDump returns the number of dispatches of bubble goroutines since the last reseed
-// and an FNV-1a hash over (goid - base) of all of them.
+// and an FNV-1a hash over the sequence of (rank of goroutine by first dispatch, inheritTime).
+// Raw goids are not hashed: they come from per-P id caches that runtime background goroutines
+// (GC workers etc.), started at timing-dependent moments, also draw from.
 //
 //go:linkname verifSchedDump
 func verifSchedDump(base uint64) (n uint64, h uint64) {
@@ -163,8 +185,34 @@ func verifSchedDump(base uint64) (n uint64, h uint64) {
 	if m > verifSchedCap {
 		m = verifSchedCap
 	}
+	for i := range verifRankKeys {
+		verifRankKeys[i] = 0
+	}
+	next := uint32(0)
 	for i := uint64(0); i < m; i++ {
-		v := verifSchedLog[i] - base
+		e := verifSchedLog[i]
+		id := e>>1 + 1
+		slot := (id * 0x9e3779b97f4a7c15) >> (64 - 14)
+		var rank uint32
+		for {
+			if verifRankKeys[slot] == id {
+				rank = verifRankVals[slot]
+				break
+			}
+			if verifRankKeys[slot] == 0 {
+				if next >= 1<<13 {
+					rank = 1 << 30
+				} else {
+					verifRankKeys[slot] = id
+					verifRankVals[slot] = next
+					rank = next
+					next++
+				}
+				break
+			}
+			slot = (slot + 1) & (1<<14 - 1)
+		}
+		v := uint64(rank)<<1 | e&1
 		for k := 0; k < 8; k++ {
 			h ^= (v >> (8 * uint(k))) & 0xff
 			h *= 1099511628211
@@ -172,6 +220,11 @@ func verifSchedDump(base uint64) (n uint64, h uint64) {
 	}
 	return
 }
+
+var (
+	verifRankKeys [1 << 14]uint64
+	verifRankVals [1 << 14]uint32
+)
 '''
     open(os.path.join(out, "rand.go"), "w").write(src)
 
@@ -185,16 +238,52 @@ func verifSchedDump(base uint64) (n uint64, h uint64) {
         "\tmp.curg = gp\n\tgp.m = mp\n\tgp.syncSafePoint = false",
         "\tif verifSimDeterministic && gp.bubble != nil {\n\t\tverifSchedLog[verifSchedN%verifSchedCap] = gp.goid<<1 | uint64(bool2int(inheritTime))\n\t\tverifSchedN++\n\t}\n\tmp.curg = gp\n\tgp.m = mp\n\tgp.syncSafePoint = false",
         "execute")
+    # The "look at the global run queue every 61st tick" fairness rule counts every dispatch of the
+    # process, including runtime background goroutines woken at timing-dependent moments; a
+    # Gosched'ed bubble goroutine sits in the global queue, so its turn depended on that count.
+    # In deterministic mode the rule counts dispatches of bubble goroutines of the current run only.
+    src = sub1(src,
+        "\tif pp.schedtick%61 == 0 && !sched.runq.empty() {\n",
+        "\tif ((!verifSimDeterministic && pp.schedtick%61 == 0) || (verifSimDeterministic && verifSimTick%61 == 0)) && !sched.runq.empty() {\n",
+        "findRunnable-fairness")
+    src = sub1(src,
+        "\tif !inheritTime {\n\t\tmp.p.ptr().schedtick++\n\t}\n",
+        "\tif !inheritTime {\n\t\tmp.p.ptr().schedtick++\n\t\tif verifSimDeterministic && gp.bubble != nil {\n\t\t\tverifSimTick++\n\t\t}\n\t}\n",
+        "execute-tick")
     src = sub1(src,
         "\tif randomizeScheduler && next && randn(2) == 0 {\n",
         "\tif (randomizeScheduler || (verifSimShuffle && verifInSim())) && next && randn(2) == 0 {\n",
         "runqput")
     open(os.path.join(out, "proc.go"), "w").write(src)
 
+    # ---------------------------------------------------------------- timing-/M-dependent draw sites
+    # These runtime-internal sites draw a number of times that depends on machine timing (runtime
+    # lock contention), on which M happens to run the goroutine (per-M pcvalue cache) or on
+    # process-global caches shared with code outside the bubble (interface-switch caches). None of
+    # them influences program-visible behaviour, so they keep the ordinary per-M generator and
+    # never touch the simulation stream.
+    extra = {}
+    def patch_file(name, subs):
+        s = open(os.path.join(rt, name)).read()
+        for anchor, repl, cnt in subs:
+            if s.count(anchor) != cnt:
+                die("anchor %r in %s occurs %d times (expected %d)" % (anchor, name, s.count(anchor), cnt))
+            s = s.replace(anchor, repl)
+        open(os.path.join(out, name), "w").write(s)
+        extra[os.path.join(rt, name)] = os.path.join(out, name)
+    patch_file("symtab.go", [("ci := cheaprandn(uint32(len(cache.entries[ck])))", "ci := cheaprandnRaw(uint32(len(cache.entries[ck])))", 1)])
+    patch_file("lock_spinbit.go", [("return cheaprandn(rate32) == 0", "return cheaprandnRaw(rate32) == 0", 1),
+                                   ("antiStarve := cheaprandn(mutexTailWakePeriod) == 0", "antiStarve := cheaprandnRaw(mutexTailWakePeriod) == 0", 1)])
+    patch_file("mprof.go", [("if cheaprandn(gTrackingPeriod) == 0 {", "if cheaprandnRaw(gTrackingPeriod) == 0 {", 1)])
+    patch_file("iface.go", [("if cheaprand()&1023 != 0 {", "if cheaprandRaw()&1023 != 0 {", 2),
+                            ("if cheaprand()&uint32(oldC.Mask) != 0 {", "if cheaprandRaw()&uint32(oldC.Mask) != 0 {", 2)])
+    patch_file("malloc.go", [("q := cheaprandn(1<<randomBitCount) + 1", "q := cheaprandnRaw(1<<randomBitCount) + 1", 1)])
+
     overlay = {"Replace": {
         os.path.join(rt, "rand.go"): os.path.join(out, "rand.go"),
         os.path.join(rt, "proc.go"): os.path.join(out, "proc.go"),
     }}
+    overlay["Replace"].update(extra)
     json.dump(overlay, open(os.path.join(out, "overlay.json"), "w"), indent=1)
     print("rtpatch: wrote", out)
 
